@@ -400,7 +400,7 @@ func emitTrace(i int, d *def, s *schedule, rd *Reader) {
 	if cuts == nil {
 		cuts = []int{}
 	}
-	if os.Getenv("VERIF_STREAM_TRACE_LIE") == strconv.Itoa(i) && len(rd.Calls) > 1 {
+	if os.Getenv("VERIF_STREAM_TRACE_LIE") == strconv.Itoa(i) && len(rd.Calls) > 0 {
 		// development aid (binding demonstration): misreport one answer of the reader
 		rd.Calls[len(rd.Calls)/2].N++
 	}
